@@ -138,16 +138,21 @@ def c09_run(items, harness):
         tag = 'q4' if deg == 4 else f'i{deg}'
         for pt in (kx, a, b):
             ev_lines.append(f"eval T={tag} p={o['impl']} x={hx(pt)}")
-        ev_items.append(it)
+        ev_items.append(it + ([fh(t) for t in o['impl'].split(',')],))
     evs = run_impl(harness, ev_lines) if ev_lines else []
     failures, worst = [], 0.0
-    for i, (deg, cs, kx, ky, a, b, line) in enumerate(ev_items):
+    for i, (deg, cs, kx, ky, a, b, line, fnums) in enumerate(ev_items):
         Fk, Fa, Fb = [fh(evs[3 * i + j]['impl']) for j in range(3)]
         # magnitudes of the construction: |F| at the three points plus the antiderivative terms
         la, lb, lk = [abs(mp.log(mp.mpf(t))) for t in (a, b, kx)]
         L = max(la, lb, lk, 1)
-        scale = sum(abs(mp.mpf(c)) for c in cs) * mp.factorial(deg) * L ** deg * max(a, b, kx) + abs(ky) + 1
+        scale = sum(abs(mp.mpf(c)) for c in cs) * mp.factorial(deg) * L ** deg * max(a, b, kx) + abs(ky) + mp.mpf(2) ** -900
         tol = mp.mpf(2) ** -53 * 2 ** 12 * scale
+        if deg == 4 and all(t == t and abs(t) != float('inf') for t in fnums):
+            # the quartic has its own representation (k, c1..c4, u), evaluated through the exponential tail: its rounding
+            # bound is C10's 1e-12 * (sum of the magnitudes of the terms of the representation), at each of the three points
+            # (C09Bound.logpoly4_integral_difference_rounding: 1.003e-12 * (Mag a + Mag b + 2|k|))
+            tol += mp.mpf('2e-12') * sum(q4_exact(fnums, pt)[1] for pt in (kx, a, b))
         full = line + f" # a={hx(a)} b={hx(b)}"
         if not (abs(mp.mpf(Fk) - mp.mpf(ky)) <= tol):
             failures.append(mkfail(full, f"F(knot.x)={Fk!r} but knot.y={ky!r}")); continue
@@ -166,14 +171,16 @@ def c09(args, rng):
         deg = rng.randint(0, 8)
         style = rng.random()
         cs = [float(rng.randint(-6, 6)) if style < 0.4 else rng.uniform(-3, 3) for _ in range(deg + 1)]
-        kx = rng.choice([rng.uniform(0.05, 20), 1.0, rng.uniform(0.5, 2.0), 2.0 ** rng.randint(-6, 6), 10.0 ** rng.uniform(-18, -3), 2.0 ** rng.randint(-60, 40)])
+        if rng.random() < 0.25:
+            cs = [c * 10.0 ** rng.uniform(-8, 8) for c in cs]   # coefficient magnitudes across sixteen decades
+        kx = rng.choice([rng.uniform(0.05, 20), 1.0, rng.uniform(0.5, 2.0), 2.0 ** rng.randint(-6, 6), 10.0 ** rng.uniform(-18, -3), 2.0 ** rng.randint(-60, 40), 10.0 ** rng.uniform(2, 15)])
         if deg == 4 and rng.random() < 0.4:
             # quartic form with u = 0 exactly: p0 - p1 + 2 p2 - 6 p3 + 24 p4 = 0
             p1, p2, p3, p4 = [float(rng.randint(-3, 3)) for _ in range(4)]
             cs = [p1 - 2 * p2 + 6 * p3 - 24 * p4, p1, p2, p3, p4]
         ky = rng.uniform(-5, 5)
         a = rng.choice([rng.uniform(0.05, 20), kx, 1.0, rng.uniform(0.7, 1.4), 10.0 ** rng.uniform(-15, -2)])
-        b = rng.choice([rng.uniform(0.05, 20), rng.uniform(0.7, 1.4), 2.0 ** rng.randint(-4, 4), 10.0 ** rng.uniform(-15, -2)])
+        b = rng.choice([rng.uniform(0.05, 20), rng.uniform(0.7, 1.4), 2.0 ** rng.randint(-4, 4), 10.0 ** rng.uniform(-15, -2), 10.0 ** rng.uniform(2, 15)])
         line = f"integral T=l{deg} p={','.join(hx(t) for t in cs)} k={hx(kx)},{hx(ky)}"
         items.append((deg, cs, kx, ky, a, b, line))
         classes[f"deg{deg}"] = classes.get(f"deg{deg}", 0) + 1
@@ -181,7 +188,61 @@ def c09(args, rng):
     failures, worst, nev = c09_run(items, args.harness)
     return dict(evaluations=len(items) + nev, distinct_nontrivial=len(distinct), classes=classes, worst_scaled_error=worst,
                 failures=failures[:20], samples=[it[6] for it in items[:2]],
-                rule="C09: random degree 0..8, coefficients, knot x>0 (incl. away from 1), points a,b>0; F(knot.x)=knot.y and F(b)-F(a) vs the closed-form integral in 400-bit mpmath; tolerance 2^12 u * (sum|c| n! L^n max(a,b,kx) + |ky| + 1)")
+                rule="C09: random degree 0..8, coefficients, knot x>0 (incl. away from 1), points a,b>0; F(knot.x)=knot.y and F(b)-F(a) vs the closed-form integral in 400-bit mpmath; tolerance 2^12 u * (sum|c| n! L^n max(a,b,kx) + |ky|) (C09Bound proves < 2^9 u * the same scale in the standard model)")
+
+def c11(args, rng):
+    """Piecewise<Log<PolyK>>::integral(k0) on the implementation: first piece through k0, adjacent pieces agree at every
+    interior breakpoint (C11 for log pieces; the Lean monitor cannot evaluate ln)"""
+    n = 400 if args.tier == 'quick' else 20000
+    cases, meta = [], []
+    for _ in range(n):
+        deg = rng.randint(0, 8)
+        npieces = rng.randint(1, 6)
+        ends = sorted(rng.choice([rng.uniform(0.05, 20), 2.0 ** rng.randint(-4, 4), rng.uniform(0.7, 1.4)]) for _ in range(npieces))
+        if npieces > 1 and rng.random() < 0.2:
+            ends[1] = ends[0]   # duplicate breakpoint
+        pieces = [[float(rng.randint(-6, 6)) if rng.random() < 0.4 else rng.uniform(-3, 3) for _ in range(deg + 1)] for _ in ends]
+        kx = rng.choice([ends[0], ends[0] * 0.5, rng.uniform(0.05, ends[0]), 1.0])
+        ky = rng.uniform(-5, 5)
+        pw = ';'.join(f"{hx(e)}:{','.join(hx(t) for t in p)}" for e, p in zip(ends, pieces))
+        cases.append(f"pwintegral T=l{deg} pw={pw} k={hx(kx)},{hx(ky)}")
+        meta.append((deg, ends, pieces, kx, ky))
+    outs = run_impl(args.harness, cases)
+    ev_lines, ev_meta = [], []
+    for (deg, ends, pieces, kx, ky), line, o in zip(meta, cases, outs):
+        if o.get('impl') in (None, 'PANIC'):
+            continue
+        tag = 'q4' if deg == 4 else f'i{deg}'
+        segs = [s.split(':') for s in o['impl'].split(';')]
+        pts = [(0, kx)] + [(i, ends[i]) for i in range(len(ends) - 1)] + [(i + 1, ends[i]) for i in range(len(ends) - 1)]
+        for (i, x) in pts:
+            ev_lines.append(f"eval T={tag} p={segs[i][1]} x={hx(x)}")
+        ev_meta.append((deg, ends, pieces, kx, ky, line, len(pts), len(segs)))
+    evs = run_impl(args.harness, ev_lines) if ev_lines else []
+    failures, worst, classes, distinct, pos = [], 0.0, {}, set(), 0
+    for (deg, ends, pieces, kx, ky, line, npts, nsegs) in ev_meta:
+        vals = [fh(e['impl']) for e in evs[pos:pos + npts]]
+        pos += npts
+        classes[f"deg{deg}:n{len(ends)}"] = classes.get(f"deg{deg}:n{len(ends)}", 0) + 1
+        distinct.add(line)
+        if nsegs != len(ends):
+            failures.append(mkfail(line, "integral has a different number of pieces")); continue
+        L = max([abs(mp.log(mp.mpf(t))) for t in ends + [kx]] + [1])
+        scale = sum(sum(abs(mp.mpf(c)) for c in p) for p in pieces) * mp.factorial(deg) * L ** deg * max(ends + [kx]) + abs(ky)
+        tol = mp.mpf(2) ** -53 * 2 ** 12 * scale * (len(ends) + 1)
+        if not (abs(mp.mpf(vals[0]) - mp.mpf(ky)) <= tol):
+            failures.append(mkfail(line, f"first piece does not pass through k0: F(k0.x)={vals[0]!r}, k0.y={ky!r}")); continue
+        m = len(ends) - 1
+        for i in range(m):
+            left, right = vals[1 + i], vals[1 + m + i]
+            d = abs(mp.mpf(left) - mp.mpf(right))
+            if d == d:
+                worst = max(worst, float(d / scale))
+            if not (d <= tol):
+                failures.append(mkfail(line, f"adjacent pieces disagree at interior breakpoint #{i}: {left!r} vs {right!r}")); break
+    return dict(evaluations=len(cases) + len(ev_lines), distinct_nontrivial=len(distinct), classes=classes, worst_scaled_jump=worst,
+                failures=failures[:20], samples=cases[:2],
+                rule="C11/log pieces: 1..6 Log<PolyK> pieces (positive breakpoints, duplicates), k0 inside / left of the first piece; F0(k0.x) = k0.y and F_i(e_i) = F_(i+1)(e_i) evaluated by the implementation, tolerance 2^12 u (n+1) * (sum|c| n! L^n max end + |k0.y|)")
 
 def judge_c01(cs, v, y):
     deg = len(cs) - 1
@@ -271,7 +332,7 @@ def main():
         return replay(args)
     rng = random.Random(args.seed * 7919 + sum(map(ord, args.prop)))
     t0 = time.time()
-    res = c10(args, rng) if args.prop == 'C10' else (c01(args, rng) if args.prop == 'C01' else c09(args, rng))
+    res = c10(args, rng) if args.prop == 'C10' else (c01(args, rng) if args.prop == 'C01' else (c11(args, rng) if args.prop == 'C11' else c09(args, rng)))
     res['wall_s'] = time.time() - t0
     json.dump(res, open(args.out, 'w'))
 
